@@ -23,6 +23,7 @@
 //!   lim   max_reply_size set on every client (0 = default)
 //!   ops   0 call   a=client b=method c=x d=flags   (the k-th call op has call id k, counted from 0)
 //!                  methods: 0 get(&self) 1 get_nc(&self, no_cancel) 2 add(&mut) 3 add_nc 4 take(self) 5 take_nc
+//!                           6 later_ref(&self) 7 later_mut(&mut self): methods the server does not know (ObjM flavours)
 //!                  flags: 1 hold at gate 1 | 2 hold at gate 2 | 4 request undecodable at the server |
 //!                         8 reply undecodable at the client | 16 reply exceeds `lim` | 32 request exceeds
 //!                         the client's max_request_size | 64 drop the call future right after its first poll
@@ -294,6 +295,20 @@ impl ObjM for Tgt {
     }
 }
 
+/// The client-side view of [ObjM] in a later version of the interface: two more methods, which the
+/// server (serving [ObjM]) does not know.  Same wire format for everything the two have in common.
+#[rtc::remote(clone)]
+pub trait ObjX {
+    async fn get(&self, a: A) -> Result<R, CallError>;
+    #[no_cancel]
+    async fn get_nc(&self, a: A) -> Result<R, CallError>;
+    async fn add(&mut self, a: A) -> Result<R, CallError>;
+    #[no_cancel]
+    async fn add_nc(&mut self, a: A) -> Result<R, CallError>;
+    async fn later_ref(&self, a: A) -> Result<R, CallError>;
+    async fn later_mut(&mut self, a: A) -> Result<R, CallError>;
+}
+
 #[rtc::remote]
 pub trait ObjR {
     async fn get(&self, a: A) -> Result<R, CallError>;
@@ -356,12 +371,23 @@ pub enum Item {
     FO(rfn::RFnOnce<(A,), FnRes>),
 }
 
+/// What endpoint A receives: the same items, the [ObjM] client seen as an [ObjX] client.
+#[derive(Serialize, Deserialize)]
+pub enum ItemA {
+    M(ObjXClient),
+    R(ObjRClient),
+    V(ObjVClient),
+    F(rfn::RFn<(A,), FnRes>),
+    FM(rfn::RFnMut<(A,), FnRes>),
+    FO(rfn::RFnOnce<(A,), FnRes>),
+}
+
 type VSlot = Arc<tokio::sync::RwLock<Option<ObjVClient>>>;
 type FMSlot = Arc<tokio::sync::RwLock<Option<rfn::RFnMut<(A,), FnRes>>>>;
 type FOSlot = Arc<tokio::sync::RwLock<Option<rfn::RFnOnce<(A,), FnRes>>>>;
 
 enum Cl {
-    M(ObjMClient),
+    M(ObjXClient),
     R(ObjRClient),
     V(VSlot),
     F(rfn::RFn<(A,), FnRes>),
@@ -427,7 +453,7 @@ fn method_ok(flav: u128, meth: u128) -> bool {
     match flav {
         0 => meth <= 5,
         1 | 3 => meth <= 1,
-        2 | 4 | 5 => meth <= 3,
+        2 | 4 | 5 => meth <= 3 || meth == 6 || meth == 7,
         _ => true,
     }
 }
@@ -677,7 +703,9 @@ fn start_call(c: &Case, ctl: &Arc<Ctl>, clients: &mut [Option<Cl>], id: u32, cl:
                     0 => m.get(a).await,
                     1 => m.get_nc(a).await,
                     2 => m.add(a).await,
-                    _ => m.add_nc(a).await,
+                    3 => m.add_nc(a).await,
+                    6 => m.later_ref(a).await,
+                    _ => m.later_mut(a).await,
                 };
                 fin(r)
             })
@@ -747,10 +775,10 @@ async fn run_case(c: Case) -> Option<Trace> {
     let net = Net::new(true);
     let cfg = Cfg::default();
     let (a, b) = tokio::join!(
-        Connect::framed::<_, _, Item, Item, codec::Default>(cfg.clone(), net.a2b.sink(), net.b2a.stream()),
+        Connect::framed::<_, _, ItemA, ItemA, codec::Default>(cfg.clone(), net.a2b.sink(), net.b2a.stream()),
         Connect::framed::<_, _, Item, Item, codec::Default>(cfg, net.b2a.sink(), net.a2b.stream()),
     );
-    let (conn_a, _tx_a, mut rx_a): (_, base::Sender<Item>, base::Receiver<Item>) = a.ok()?;
+    let (conn_a, _tx_a, mut rx_a): (_, base::Sender<ItemA>, base::Receiver<ItemA>) = a.ok()?;
     let (conn_b, tx_b, _rx_b): (_, base::Sender<Item>, base::Receiver<Item>) = b.ok()?;
     let ja = tokio::spawn(conn_a);
     let jb = tokio::spawn(conn_b);
@@ -764,12 +792,12 @@ async fn run_case(c: Case) -> Option<Trace> {
     for _ in 0..n_recv {
         let it = rx_a.recv().await.ok()??;
         clients.push(Some(match it {
-            Item::M(m) => Cl::M(m),
-            Item::R(m) => Cl::R(m),
-            Item::V(m) => Cl::V(Arc::new(tokio::sync::RwLock::new(Some(m)))),
-            Item::F(f) => Cl::F(f),
-            Item::FM(f) => Cl::FM(Arc::new(tokio::sync::RwLock::new(Some(f)))),
-            Item::FO(f) => Cl::FO(Arc::new(tokio::sync::RwLock::new(Some(f)))),
+            ItemA::M(m) => Cl::M(m),
+            ItemA::R(m) => Cl::R(m),
+            ItemA::V(m) => Cl::V(Arc::new(tokio::sync::RwLock::new(Some(m)))),
+            ItemA::F(f) => Cl::F(f),
+            ItemA::FM(f) => Cl::FM(Arc::new(tokio::sync::RwLock::new(Some(f)))),
+            ItemA::FO(f) => Cl::FO(Arc::new(tokio::sync::RwLock::new(Some(f)))),
         }));
     }
     while clients.len() < c.ncl {
@@ -1215,11 +1243,11 @@ fn oracle(c: &Case, t: &Trace) -> String {
     }
     // O7 failures stay with the failing call
     let srv_done: Vec<(usize, u8)> = t.log.iter().enumerate().filter_map(|(p, e)| if let Ev::SrvDone(r) = e { Some((p, *r)) } else { None }).collect();
-    let bad_before = |p: usize| calls.iter().any(|k| k.flags & 4 != 0 && k.inv_at < p);
-    let value_before = |p: usize| calls.iter().any(|k| k.meth >= 4 && k.inv_at < p);
+    let bad_before = |p: usize| calls.iter().any(|k| (k.flags & 4 != 0 || k.meth >= 6) && k.inv_at < p);
+    let value_before = |p: usize| calls.iter().any(|k| (k.meth == 4 || k.meth == 5) && k.inv_at < p);
     for (p, r) in &srv_done {
         match r {
-            2 => return "FAIL: O7 serve() ended with a reply error: one oversized reply ends service for every client".into(),
+            2 => return "FAIL: O7 serve() ended with a reply error (Err(ReplySend)): the failure of one reply ends service for every client".into(),
             1 if !(c.pol == 2 && bad_before(*p)) => return "FAIL: O7 serve() ended with a receive error although the policy is not Fail".into(),
             0 if *p < wind && cut_at.map_or(true, |x| x > *p) && !value_before(*p) && !all_clients_dropped_before(c, t, *p) => {
                 return "FAIL: O7 serve() ended although clients are alive and the connection is up".into()
@@ -1229,7 +1257,7 @@ fn oracle(c: &Case, t: &Trace) -> String {
     }
     for (i, k) in calls.iter().enumerate() {
         if let Some((p, None)) = k.ret.first() {
-            if k.flags & (4 | 8 | 16 | 32) != 0 || t.polled_once.contains(&(i as u32)) {
+            if k.flags & (4 | 8 | 16 | 32) != 0 || k.meth >= 6 || t.polled_once.contains(&(i as u32)) {
                 continue;
             }
             if cut_at.map_or(false, |x| x < *p) {
@@ -1307,7 +1335,8 @@ fn signature(c: &Case, t: &Trace) -> String {
     feat(conc, "conc");
     feat(overlap_exec, "par");
     feat(calls.iter().any(|k| is_mut_meth(k.meth) && k.ret.first().map_or(false, |r| r.1.is_some())), "mut");
-    feat(calls.iter().any(|k| k.meth >= 4), "val");
+    feat(calls.iter().any(|k| k.meth == 4 || k.meth == 5), "val");
+    feat(calls.iter().any(|k| k.meth >= 6), "unknown");
     feat(calls.iter().any(|k| !k.cancelled.is_empty()), "cancel");
     feat(calls.iter().any(|k| k.dropped_at.is_some() && k.started.is_empty() && k.flags & 128 == 0), "skip");
     feat(calls.iter().any(|k| k.dropped_at.is_some() && !k.finished.is_empty() && no_cancel(c, k.meth)), "ncdone");
@@ -1328,7 +1357,13 @@ fn pick_method(r: &mut Rng, flav: u64) -> u64 {
     match flav {
         0 => *r.pick(&[0u64, 0, 1, 2, 2, 3, 4, 5]),
         1 | 3 => r.below(2),
-        2 | 4 | 5 => *r.pick(&[0u64, 0, 1, 2, 2, 2, 3]),
+        2 | 4 | 5 => {
+            if r.chance(1, 16) {
+                r.range(6, 7)
+            } else {
+                *r.pick(&[0u64, 0, 1, 2, 2, 2, 3])
+            }
+        }
         _ => 0,
     }
 }
